@@ -1459,6 +1459,9 @@ def apply_renames(P, base):
     cand = {}
     for k in missing:
         cs = [f for f in new if parent(f.key) == parent(k) and fn_signature(f) == base[k]]
+        if not cs:
+            # second tier: same argument types, the return type was changed along with the name (Result<T, ()> -> Option<T> ...)
+            cs = [f for f in new if parent(f.key) == parent(k) and fn_signature(f)[1:] == base[k][1:] and len(base[k]) > 1]
         if len(cs) == 1:
             cand[k] = cs[0]
     # one-to-one only
